@@ -114,6 +114,12 @@ pub fn run(t: &[&str]) -> Option<String> {
             t.get(2).and_then(|x| x.parse().ok()).unwrap_or(50),
             t.get(3).and_then(|x| x.parse().ok()).unwrap_or(1),
         ),
+        "stress_cleanup" => stress_cleanup(
+            t.get(1).and_then(|x| x.parse().ok()).unwrap_or(40),
+            t.get(2).and_then(|x| x.parse().ok()).unwrap_or(4),
+            t.get(3).and_then(|x| x.parse().ok()).unwrap_or(250),
+            t.get(4).and_then(|x| x.parse().ok()).unwrap_or(1),
+        ),
         _ => return None,
     })
 }
@@ -586,4 +592,132 @@ fn stress_shutdown(n_threads: usize, n_calls: usize, seed: u64) -> String {
         None if after > 0 => format!("FAIL call-succeeded-after-observed-shutdown n={after}"),
         None => format!("OK calls={total}"),
     }
+}
+
+// =========================================================================================
+// Real-thread stress with a LONG clean-up (search support for C14, outside the model):
+// `n_services` services are registered and announced, then `n_threads` client threads call
+// get_metrics() / unregister(<unknown>) every `pause_us` microseconds on clones of the handle
+// and keep every reply receiver, while the main thread shuts the daemon down.  When the daemon
+// has ended, a reply receiver that has neither a value nor is closed belongs to a call that
+// was accepted (Ok) and then left in the channel for ever ("stranded").
+// Result: OK calls=<accepted> stranded=<k>   |  FAIL <what>
+// =========================================================================================
+fn stress_cleanup(n_services: usize, n_threads: usize, pause_us: u64, seed: u64) -> String {
+    enum Rx {
+        M(flume::Receiver<mdns_sd::Metrics>),
+        U(flume::Receiver<UnregisterStatus>),
+    }
+    let port = fresh_port();
+    vh::set_virtual_now(Some(1_000_000));
+    let sim = vh::sim_register(port, vec![sim_iface()], seed);
+    let daemon = match ServiceDaemon::new_with_port(port) {
+        Ok(d) => d,
+        Err(_) => return "NODAEMON".into(),
+    };
+    let _ = sim.wait_at_gate(WALL_MS);
+    // register in batches (the command queue holds 100), then let the probes finish and the
+    // announcements go out in virtual time
+    for k in 0..n_services {
+        let info = match ServiceInfo::new(
+            "_x._tcp.local.",
+            &format!("s{k}"),
+            "h.local.",
+            IpAddr::V4(Ipv4Addr::new(192, 168, 1, 10)),
+            80,
+            None::<std::collections::HashMap<String, String>>,
+        ) {
+            Ok(i) => i,
+            Err(_) => return "FAIL service-info".into(),
+        };
+        if daemon.register(info).is_err() {
+            return "FAIL register".into();
+        }
+        if k % 50 == 49 {
+            sim.release();
+            let _ = sim.wait_at_gate(WALL_MS);
+        }
+    }
+    let mut announced = 0usize;
+    for step in 0..8u64 {
+        vh::set_virtual_now(Some(1_000_000 + step * 300));
+        sim.release();
+        if sim.wait_at_gate(WALL_MS).is_none() {
+            return "FAIL setup-stuck".into();
+        }
+        let (_, an) = goodbyes_and_announcements(&sim);
+        announced += an.len();
+    }
+    if announced < n_services {
+        return format!("FAIL setup announced={announced}");
+    }
+    let stop = Arc::new(AtomicBool::new(false));
+    let pump = {
+        let sim = sim.clone();
+        let stop = stop.clone();
+        std::thread::spawn(move || {
+            while !stop.load(Ordering::SeqCst) {
+                sim.release();
+                match sim.wait_at_gate(2000) {
+                    Some(r) if r.exited => break,
+                    _ => {}
+                }
+            }
+        })
+    };
+    let mut hs = Vec::new();
+    for k in 0..n_threads {
+        let d = daemon.clone();
+        hs.push(std::thread::spawn(move || -> Vec<Rx> {
+            let mut kept = Vec::new();
+            let pause = Duration::from_micros(pause_us + (k as u64 * 37) % 50);
+            for i in 0..4000usize {
+                let r = if (i + k) % 2 == 0 {
+                    d.get_metrics().map(Rx::M)
+                } else {
+                    d.unregister("nobody._x._tcp.local.").map(Rx::U)
+                };
+                match r {
+                    Ok(rx) => kept.push(rx),
+                    Err(mdns_sd::Error::DaemonShutdown) => break,
+                    Err(_) => {}
+                }
+                std::thread::sleep(pause);
+            }
+            kept
+        }));
+    }
+    std::thread::sleep(Duration::from_millis(10 + seed % 10));
+    let shut = daemon.shutdown();
+    let shut_ok = match shut {
+        Ok(rx) => matches!(rx.recv_timeout(Duration::from_millis(10000)), Ok(DaemonStatus::Shutdown)),
+        Err(_) => false,
+    };
+    let mut all: Vec<Rx> = Vec::new();
+    for h in hs {
+        match h.join() {
+            Ok(v) => all.extend(v),
+            Err(_) => return "FAIL client-thread-panicked".into(),
+        }
+    }
+    stop.store(true, Ordering::SeqCst);
+    let _ = pump.join();
+    if !shut_ok {
+        vh::sim_unregister(port);
+        return "FAIL shutdown-not-confirmed".into();
+    }
+    // the daemon thread has ended: give its destructors a moment, then look at every receiver
+    std::thread::sleep(Duration::from_millis(30));
+    let mut stranded = 0usize;
+    for rx in all.iter() {
+        let pending = match rx {
+            Rx::M(r) => matches!(r.try_recv(), Err(flume::TryRecvError::Empty)),
+            Rx::U(r) => matches!(r.try_recv(), Err(flume::TryRecvError::Empty)),
+        };
+        if pending {
+            stranded += 1;
+        }
+    }
+    vh::sim_unregister(port);
+    format!("OK calls={} stranded={}", all.len(), stranded)
 }
